@@ -562,7 +562,7 @@ func corpusSub(r *core.Run, name string, cfg core.Cfg, keep func([]byte) bool, f
 	docsSub(r, name, fmt.Sprintf("%d documents of %s under %s", len(docs), corpusRule, cfg), cfg, docs, fn)
 }
 
-const corpusRule = "the structured corpus (nesting documents, colliding heading sequences, footnote sequences, attribute blocks, replication families, leak-prone documents, printed model documents with tab/space indentation in every single-deviation spelling, small tables with every pair of cell contents, code lines under containers in every tab/space mixture, indexed families of n footnotes / reference links / table columns and rows / attributes / inline items for every n up to a bound, delimiters next to non-ASCII whitespace and punctuation, CR LF versions of the model, table and code documents)"
+const corpusRule = "the structured corpus (nesting documents, colliding heading sequences, footnote sequences, attribute blocks, replication families, leak-prone documents, printed model documents with tab/space indentation in every single-deviation spelling, small tables with every pair of cell contents, code lines under containers in every tab/space mixture, indexed families of n footnotes / reference links / table columns and rows / attributes / inline items for every n up to a bound, delimiters next to non-ASCII whitespace and punctuation, every ATX/Setext heading shape with closers and attribute blocks, every block construct in every container and extension slot, CR LF versions of the model, table and code documents)"
 
 // CountDocs returns indexed families whose size parameter n takes EVERY value 1..maxN: n footnotes (references then
 // definitions, and the other way round; every second one referenced twice), n reference links with n definitions, tables of
@@ -639,4 +639,75 @@ func UnicodeDocs() [][]byte {
 // CRLF returns doc with every line ending written CR LF.
 func CRLF(doc []byte) []byte {
 	return bytes.ReplaceAll(bytes.ReplaceAll(doc, []byte("\r\n"), []byte("\n")), []byte("\n"), []byte("\r\n"))
+}
+
+// HeadingShapeDocs returns every ATX heading shape level × text × closing sequence × attribute block × final newline ×
+// container, and Setext headings with attribute blocks: the places where an ATX line is cut into text, closer and
+// attributes from both ends (empty texts, closers without text, attribute blocks directly behind the closer).
+func HeadingShapeDocs() [][]byte {
+	var out [][]byte
+	texts := []string{"", "h", "h  ", "#", "h #", "\\#", "h\\"}
+	closers := []string{"", " #", " ##", "  ###  ", "#", " # #"}
+	attrs := []string{"", " {#a}", " {.c}", " {#a .c k=v}", "{#a}", " {#a} ", " {", " {}"}
+	for lvl := 1; lvl <= 6; lvl += 2 {
+		for _, t := range texts {
+			for _, c := range closers {
+				for _, a := range attrs {
+					for _, pre := range []string{"", "> ", "- ", "   "} {
+						line := pre + strings.Repeat("#", lvl)
+						if t != "" {
+							line += " " + t
+						}
+						line += c + a
+						out = append(out, []byte(line), []byte(line+"\n"), []byte(line+"\nnext\n"))
+					}
+				}
+			}
+		}
+	}
+	for _, t := range []string{"h", "h\nk", "h  ", "h #"} {
+		for _, a := range attrs {
+			for _, u := range []string{"===", "-", "=  "} {
+				out = append(out, []byte(t+a+"\n"+u+"\n"), []byte("> "+strings.ReplaceAll(t+a, "\n", "\n> ")+"\n> "+u))
+			}
+		}
+	}
+	return out
+}
+
+// SlotDocs places every block construct in every block-level slot of a container or extension construct: list items,
+// ordered items, quotes, task items, footnote bodies, definition-list terms and descriptions (first and later ones),
+// directly after and before a paragraph line. Continuation lines of the construct get the slot's indentation.
+func SlotDocs() [][]byte {
+	type slot struct{ before, first, cont, after string }
+	slots := []slot{
+		{"", "- ", "  ", ""}, {"", "1. ", "   ", ""}, {"", "> ", "> ", ""}, {"", "- [ ] ", "  ", ""}, {"- a\n", "  - ", "    ", ""}, {"> - a\n", "> - ", ">   ", ""},
+		{"x[^1]\n\n", "[^1]: ", "    ", ""}, {"", "", "", "\n: d\n"}, {"t\n: d\n\n", "", "", "\n: e\n"}, {"t\n", ": ", "  ", ""}, {"t\n: d\n", ": ", "  ", ""},
+		{"p\n", "", "", ""}, {"", "", "", "\np\n"}, {"- a\n\n", "  ", "  ", ""}, {"|a|\n|-|\n", "", "", ""}, {"", "", "", "\n|a|\n|-|\n"},
+	}
+	constructs := []string{"a", "[x]: /u", "[x]: /u\n[y]: /v 't'", "[x]: /u\ntext [x]", "[x]:\n/u\n'multi\nline'", "[^2]: fn", "# h", "h\n===", "h\n---", "***", "- i", "1. i", "-", "> q", ">",
+		"```\nc\n```", "```", "~~~ info\nc", "    code", "<div>\nh\n</div>", "<!-- c -->", "<?p", "|a|b|\n|-|-|\n|c|d|", "a\n: b", "- [x] t", "a  \nb", "a\\\nb", "*a\nb*", "`a\nb`", "[l\nm](u)",
+		"![i](s 't')", "<http://a.b>", "www.a.bc", "\"q\" -- ...", "~~s~~", "a[^1]", "# h {#i}", "&amp; &#0; \\&", "\ta", "a\n\n\nb", "[x]", "[x][]", "[t][x]"}
+	var out [][]byte
+	for _, sl := range slots {
+		for _, c := range constructs {
+			lines := strings.Split(c, "\n")
+			var b strings.Builder
+			b.WriteString(sl.before)
+			for i, l := range lines {
+				if i == 0 {
+					b.WriteString(sl.first)
+				} else {
+					b.WriteString(sl.cont)
+				}
+				b.WriteString(l)
+				if i < len(lines)-1 {
+					b.WriteString("\n")
+				}
+			}
+			b.WriteString(sl.after)
+			out = append(out, []byte(b.String()), []byte(b.String()+"\n\n[x]: /late\n"))
+		}
+	}
+	return out
 }
